@@ -24,12 +24,13 @@ from __future__ import annotations
 
 import contextlib
 import hashlib
+import json
 import os
 import shutil
 import tempfile
 from types import SimpleNamespace
 
-from .common import Check, Err, cN, cbool, clist, copt, cpair, impl_call
+from .common import VERIF, Check, Err, cN, cbool, clist, copt, cpair, impl_call
 
 IMPORTS = ("From Coq Require Import List NArith ZArith Bool.\n"
            "From Verif Require Import Base.Val C48.Model_C48 C48.Spec_C48.")
@@ -49,25 +50,29 @@ def md5_of(path):
 class Repo:
     """the on-disk fixture"""
 
-    def __init__(self, root, rng):
+    def __init__(self, root, rng, spec=None):
+        """spec (matrix / corpus cells): {'nstack', 'caches': [(layout, ro)], 'pkgs', 'inherits': {pkg: [names]}}"""
         self.root, self.rng = root, rng
         self.dirs = [os.path.join(root, "repoA", "eclass"), os.path.join(root, "repoB", "eclass")]
-        self.nstack = rng.choice([1, 2, 2])
+        self.nstack = spec["nstack"] if spec else rng.choice([1, 2, 2])
         for d in self.dirs:
             os.makedirs(d)
-        self.pkgs = ["pkg-1", "pkg-2"] + (["pkg-3"] if rng.random() < 0.4 else [])
+        self.pkgs = list(spec["pkgs"]) if spec else ["pkg-1", "pkg-2"] + (["pkg-3"] if rng.random() < 0.4 else [])
         os.makedirs(os.path.join(root, "repoA", "cat", "pkg"))
         self.clock = T0
         self.counter = 0
         self.payload = {}
-        self.inherit_key = rng.random() < 0.85
+        self.inherit_key = True if spec else rng.random() < 0.85
         self.dirty = set()          # packages for which an edit kept a validation value although content changed
-        ncache = rng.choice([1, 1, 2, 2, 3])
+        ncache = len(spec["caches"]) if spec else rng.choice([1, 1, 2, 2, 3])
         self.caches = []
         for i in range(ncache):
-            lay = rng.choice(["flat", "md5"])
-            ro = rng.random() < 0.2
-            wfail = (not ro) and rng.random() < 0.1
+            if spec:
+                lay, ro, wfail = spec["caches"][i][0], spec["caches"][i][1], False
+            else:
+                lay = rng.choice(["flat", "md5"])
+                ro = rng.random() < 0.2
+                wfail = (not ro) and rng.random() < 0.1
             loc = os.path.join(root, f"cache{i}")
             os.makedirs(loc)
             if wfail:
@@ -82,6 +87,12 @@ class Repo:
             r = 1 if (self.nstack == 2 and n == base[0]) else rng.randrange(self.nstack)
             self.write_eclass(r, n)
         for j, p in enumerate(self.pkgs):
+            if spec:
+                for n in spec["inherits"][p]:
+                    if not any(os.path.exists(os.path.join(d, n + ".eclass")) for d in self.dirs[:self.nstack]):
+                        self.write_eclass(self.nstack - 1, n)
+                self.write_ebuild(p, list(spec["inherits"][p]))
+                continue
             if j == 0 or rng.random() < 0.6:
                 inh = list(base)                                     # the same inherit list
             else:
@@ -472,6 +483,60 @@ def c_caches(repo, slots):
                   for c, s in zip(repo.caches, slots)], "cache")
 
 
+# ------------------------------------------------------------------ the matrix of rarely combined options
+SHAPES = ["valid", "no_inherit", "no_inherit_stale_ebuild", "stale_ebuild", "stale_eclass", "empty_eclasses",
+          "corrupt", "absent", "no_eclasses"]
+POSITIONS = ["only", "after-empty", "before-valid"]
+
+
+def matrix_cell(root, rng, cell):
+    """a repository whose cache T (layout, writable/read-only) holds, for pkg-1, an entry of the given
+    shape; T is the only cache, or comes after an empty writable cache, or before a cache with a
+    valid entry.  pkg-2 inherits the same eclasses and keeps a valid entry."""
+    lay, ro, shape, pos = cell
+    inh = [] if shape == "no_eclasses" else ["e1", "e3"]
+    caches = {"only": [(lay, False)], "after-empty": [(lay, False), (lay, False)],
+              "before-valid": [(lay, False), (lay, False)]}[pos]
+    repo = Repo(root, rng, spec={"nstack": 2, "caches": caches, "pkgs": ["pkg-1", "pkg-2"],
+                                 "inherits": {"pkg-1": inh, "pkg-2": ["e1", "e3"]}})
+    hist = [f"matrix cell: layout={lay} cache T {'read-only' if ro else 'writable'}, pkg-1 entry shape={shape}, position={pos}"]
+    sess = Session(repo)
+    for p in repo.pkgs:                         # populate cache 0 (all caches writable for now)
+        sess.read(p)
+    t = 0
+    if pos == "after-empty":                    # T is cache 1; cache 0 stays writable and empty
+        t = 1
+        for p in repo.pkgs:
+            os.makedirs(os.path.dirname(repo.entry_path(1, p)), exist_ok=True)
+            shutil.move(repo.entry_path(0, p), repo.entry_path(1, p))
+    elif pos == "before-valid":                 # cache 1 holds valid entries
+        for p in repo.pkgs:
+            os.makedirs(os.path.dirname(repo.entry_path(1, p)), exist_ok=True)
+            shutil.copy(repo.entry_path(0, p), repo.entry_path(1, p))
+    q = repo.entry_path(t, "pkg-1")
+    with open(q) as f:
+        lines = [l for l in f.read().split("\n") if l]
+    if shape in ("no_inherit", "no_inherit_stale_ebuild"):
+        lines = [l for l in lines if not l.startswith("INHERIT=")]
+    elif shape == "empty_eclasses":
+        lines = [l for l in lines if not l.startswith("_eclasses_=")] + ["_eclasses_="]
+    elif shape == "corrupt":
+        lines.insert(1, "garbage-without-equals")
+    if shape == "absent":
+        os.unlink(q)
+    else:
+        with open(q, "w") as f:
+            f.write("\n".join(lines) + "\n")
+    if shape in ("stale_ebuild", "no_inherit_stale_ebuild"):
+        repo.write_ebuild("pkg-1", inh)
+        if pos == "before-valid":               # keep cache 1's entry valid: regenerate it there
+            pass
+    elif shape == "stale_eclass":
+        repo.write_eclass(1, "e3")
+    repo.caches[t]["ro"] = ro
+    return repo, hist
+
+
 def main(chk: Check):
     rng = chk.rng
     chk.rule("histories over random on-disk repositories (2-3 packages with equal/overlapping inherit lists, 1-2 "
@@ -491,10 +556,83 @@ def main(chk: Check):
     import logging
     logging.getLogger("pkgcore").setLevel(logging.CRITICAL)
     cases, py_bad, kinds_seen = [], [], {}
-    shared_after_edit = 0
+    counters = {'shared': 0}
+
+    def judge(repo, sess, p, hist, regen_sets):
+        """one metadata read: record the case for Coq, apply the direct oracle"""
+        w = repo.world(p)
+        nc = range(len(repo.caches))
+        pre = [repo.slot(i, p) for i in nc]
+        valid_now = [raw_valid(repo, i, p) for i in nc]
+        res = sess.read(p)
+        hist.append(f"read {p} -> " + ("regenerated" if res[0] < 0 else f"cache {res[0]}"))
+        post = [repo.slot(i, p) for i in nc]
+        term = cpair(c_world(w), c_caches(repo, pre))
+        cases.append((term, [res, post]))
+        if any(s is not None for s in pre):
+            chk.nontrivial(term)
+        names = frozenset(w["inherited"])
+        if names and names in regen_sets and any(s is not None for s in pre):
+            counters['shared'] += 1     # a package read after another one with the same eclasses was regenerated
+        if res[0] < 0:
+            regen_sets.append(names)
+        # ---- (B) directly on the implementation
+        ctx = {"history": list(hist), "package": p, "world": w,
+               "caches": [dict(c, entry=s) for c, s in zip(repo.caches, pre)], "result": res, "after": post}
+        first_valid = next((i for i, v in enumerate(valid_now) if v), -1)
+        if res[0] != first_valid:
+            py_bad.append(dict(ctx, what=(f"{p}: cache {res[0]} was used" if res[0] >= 0
+                                          else f"{p}: metadata was regenerated")
+                               + f" but the first cache whose entry is still valid is {first_valid} "
+                                 "(validity computed from the raw files)"))
+        elif p not in repo.dirty and res[1] != repo.payload[p]:
+            py_bad.append(dict(ctx, what=f"{p}: returned metadata d{res[1]} differs from metadata "
+                                         f"regenerated from scratch d{repo.payload[p]}"))
+        elif res[0] == -1:
+            writable = [i for i, c in enumerate(repo.caches) if not c["ro"] and not c["wfail"]]
+            stale_left = [i for i in writable if os.path.isfile(repo.entry_path(i, p))
+                          and raw_entry(repo.entry_path(i, p), repo.caches[i]["lay"]) is not None
+                          and not raw_valid(repo, i, p)]
+            fresh_ok = repo.inherit_key or not w["inherited"]
+            if stale_left and fresh_ok:
+                py_bad.append(dict(ctx, what=f"{p}: after the regeneration writable cache {stale_left[0]} "
+                                             "still holds a stale entry"))
+            elif writable and fresh_ok:
+                res2 = sess.read(p)
+                if res2[0] != writable[0]:
+                    py_bad.append(dict(ctx, what=f"{p}: a second read after the regeneration was not served "
+                                                 f"from the first writable cache {writable[0]} (got {res2[0]})"))
+        return w, pre, res, post
+
     n_hist = chk.n(24, 200)
     base = tempfile.mkdtemp(prefix="verif_c48_")
     try:
+        # ---- corpus cells, then the full MATRIX: layout x writable/read-only x entry shape x position
+        #      of the cache in the tuple.  Deterministic; rarely combined options are all combined.
+        cells = []
+        for cp in sorted((VERIF / "corpus" / "C48").glob("*.json")):
+            for c in json.loads(cp.read_text())["cells"]:
+                cells.append((c["layout"], c["ro"], c["shape"], c["position"]))
+        for lay in ("md5", "flat"):
+            for ro in (False, True):
+                for shape in SHAPES:
+                    for pos in (POSITIONS if shape in ("valid", "no_inherit", "stale_ebuild") else POSITIONS[:1]):
+                        if (lay, ro, shape, pos) not in cells:
+                            cells.append((lay, ro, shape, pos))
+        for ci, cell in enumerate(cells):
+            root = os.path.join(base, f"m{ci}")
+            os.makedirs(root)
+            repo, hist = matrix_cell(root, rng, cell)
+            sess = Session(repo)
+            hist.append("-- new repository object")
+            regen_sets = []
+            for p in repo.pkgs:
+                w, pre, res, post = judge(repo, sess, p, hist, regen_sets)
+            if ci < 2:
+                chk.sample({"stream": "read", "matrix_cell": cell, "history": list(hist), "result": res,
+                            "caches_before": pre, "caches_after": post})
+            shutil.rmtree(root, ignore_errors=True)
+        chk.cov["matrix_cells"] = len(cells)
         for h in range(n_hist):
             root = os.path.join(base, f"h{h}")
             os.makedirs(root)
@@ -520,48 +658,7 @@ def main(chk: Check):
                         k, label = edit(repo, rng, True)
                         hist.append(label)
                         kinds_seen[k] = kinds_seen.get(k, 0) + 1
-                    w = repo.world(p)
-                    nc = range(len(repo.caches))
-                    pre = [repo.slot(i, p) for i in nc]
-                    valid_now = [raw_valid(repo, i, p) for i in nc]
-                    res = sess.read(p)
-                    hist.append(f"read {p} -> " + ("regenerated" if res[0] < 0 else f"cache {res[0]}"))
-                    post = [repo.slot(i, p) for i in nc]
-                    term = cpair(c_world(w), c_caches(repo, pre))
-                    cases.append((term, [res, post]))
-                    if any(s is not None for s in pre):
-                        chk.nontrivial(term)
-                    names = frozenset(w["inherited"])
-                    if names and names in regen_sets and any(s is not None for s in pre):
-                        shared_after_edit += 1     # a package read after another one with the same eclasses was regenerated
-                    if res[0] < 0:
-                        regen_sets.append(names)
-                    # ---- (B) directly on the implementation
-                    ctx = {"history": list(hist), "package": p, "world": w,
-                           "caches": [dict(c, entry=s) for c, s in zip(repo.caches, pre)], "result": res, "after": post}
-                    first_valid = next((i for i, v in enumerate(valid_now) if v), -1)
-                    if res[0] != first_valid:
-                        py_bad.append(dict(ctx, what=(f"{p}: cache {res[0]} was used" if res[0] >= 0
-                                                      else f"{p}: metadata was regenerated")
-                                           + f" but the first cache whose entry is still valid is {first_valid} "
-                                             "(validity computed from the raw files)"))
-                    elif p not in repo.dirty and res[1] != repo.payload[p]:
-                        py_bad.append(dict(ctx, what=f"{p}: returned metadata d{res[1]} differs from metadata "
-                                                     f"regenerated from scratch d{repo.payload[p]}"))
-                    elif res[0] == -1:
-                        writable = [i for i, c in enumerate(repo.caches) if not c["ro"] and not c["wfail"]]
-                        stale_left = [i for i in writable if os.path.isfile(repo.entry_path(i, p))
-                                      and raw_entry(repo.entry_path(i, p), repo.caches[i]["lay"]) is not None
-                                      and not raw_valid(repo, i, p)]
-                        fresh_ok = repo.inherit_key or not w["inherited"]
-                        if stale_left and fresh_ok:
-                            py_bad.append(dict(ctx, what=f"{p}: after the regeneration writable cache {stale_left[0]} "
-                                                         "still holds a stale entry"))
-                        elif writable and fresh_ok:
-                            res2 = sess.read(p)
-                            if res2[0] != writable[0]:
-                                py_bad.append(dict(ctx, what=f"{p}: a second read after the regeneration was not served "
-                                                             f"from the first writable cache {writable[0]} (got {res2[0]})"))
+                    w, pre, res, post = judge(repo, sess, p, hist, regen_sets)
                     if h < 3 and sess_no == 1 and j == 1:
                         chk.sample({"stream": "read", "history": list(hist), "world": w, "caches_before": pre,
                                     "result": res, "caches_after": post})
@@ -571,8 +668,8 @@ def main(chk: Check):
     chk.count("read", len(cases))
     chk.note("edit kinds exercised: " + ", ".join(f"{k}={v}" for k, v in sorted(kinds_seen.items())))
     chk.note(f"reads of a package holding a cache entry after the same repository object had regenerated another "
-             f"package with the same inherited eclasses: {shared_after_edit}")
-    chk.cov["shared_eclass_reads_after_regen"] = shared_after_edit
+             f"package with the same inherited eclasses: {counters['shared']}")
+    chk.cov["shared_eclass_reads_after_regen"] = counters["shared"]
 
     spec_bad = []
     r = chk.coq_eval("read", IMPORTS, "world * list cache", cases,
